@@ -15,15 +15,25 @@ CHECKS = {
          "Same exploration as C01 with a per-element ledger: after every transition the live set equals buffer contents + harness-held elements, no double/garbage drop, and the final drop from every reachable state closes the ledger; all drain and into_iter scripts over {next,next_back} are enumerated.", "§4 C03"),
  "C11": ("model_checking", "explicit-state BFS; panic-iff-documented oracle over full argument domains",
          "Every operation x every argument in the boundary-complete domains (indexes 0..=N+1 and usize::MAX, all 9 RangeBounds shapes) from every reachable state incl. capacity 0: panics iff documented, buffer image and ledger unchanged after a documented panic, watchdog on every call.", "§4 C11"),
+ "C12": ("model_checking", "exhaustive enumeration of constructors/conversions over source lengths and layouts",
+         "new/default/boxed empty; From<[T;M]> and from_iter for every M in 0..=2N+1 keep the last N and destroy the rest exactly once; clone/to_vec/clone_from from every layout to every layout produce element-wise clones, source image untouched, ownership independent in both drop orders; into_iter().collect returns the original elements.", "§4 C12"),
  "C17": ("model_checking", "explicit-state BFS with an allocation monitor, per feature configuration",
          "The C01 transition relation plus all observers, executed under a counting global allocator in three builds (no features, alloc, std): zero allocations inside any non-panicking crate call except boxed()/to_vec().", "§4 C17"),
  "C20": ("model_checking", "explicit-state BFS with a relocation monitor",
          "Every listed O(1) operation, remove and drain from every reachable state for capacities up to 8: number of surviving elements whose address changes is within the documented bound; make_contiguous relocates nothing when already contiguous.", "§4 C20"),
 
+ "C04": ("model_checking", "explicit-state BFS with convergence differential + exhaustive planted-garbage non-interference runs",
+         "For every physical layout the unoccupied slots are overwritten with every planted filling (patterns, ids of destroyed elements, ids of live elements held elsewhere, copies of in-buffer elements) and the full alphabet is executed: outcomes identical across fillings and across layouts of equal contents, no ledger event on a non-live element; plus a fine-key BFS where every convergence of two histories on one memory image is checked for equal futures.", "§4 C04"),
  "C05": ("fault_enumeration", "exhaustive 1-deviation fault enumeration (k-th destructor call panics) on the real code",
          "For every reachable layout, every element-destroying operation and argument, and every k, the k-th destructor call inside the operation panics once; afterwards: no destructor ran twice, the buffer is a valid sequence of live distinct elements, a follow-up battery matches the model seeded from the observed contents, and the final drop destroys nothing twice. Leaks tolerated.", "§4 C05"),
  "C06": ("fault_enumeration", "exhaustive 1-deviation fault enumeration (k-th clone/closure/iterator/comparison call panics)",
          "Same as C05 for panics in T::clone, fill closures, extend/from_iter iterators and element comparisons, at every call index k and every layout (incl. wrapped free space), plus: nothing that was created is left undestroyed once the buffer is dropped.", "§4 C06"),
+ "C07": ("model_checking", "state predicate on every reachable state (ids + addresses of every view) and write-through transitions",
+         "On every reachable state, every accessor at every position 0..=N+1 and usize::MAX agrees on element identity and address with every other view, None/panic exactly outside the sequence; mutable twins alias the same addresses pairwise distinct; writes through each change exactly that position; make_contiguous yields one consecutive slice.", "§4 C07"),
+ "C08": ("model_checking", "exhaustive enumeration of next/next_back scripts for every iterator source on every layout",
+         "Every layout x every iterator source (incl. all RangeBounds shapes) x every script in {next,next_back}^(L+2), with len/size_hint at every prefix and a cloned Iter (forward and reversed) at every prefix, compared with a deque model incl. element addresses.", "§4 C08"),
+ "C09": ("model_checking", "exhaustive enumeration of drain ranges x bound shapes x consumption scripts on every reachable state",
+         "Every reachable state x every range (every bound form) x every consumption script then drop: yields, len, resulting contents in order, un-yielded elements destroyed exactly once, view predicate on the result, clean final drop; all O(N^3) hole/tail/array-end configurations of the back-fill are enumerated.", "§4 C09"),
  "C10": ("fault_enumeration", "exhaustive enumeration of drain scripts with mem::forget after every prefix",
          "Every layout x every range x every script over {next,next_back} with mem::forget(drain) after every prefix: buffer afterwards holds live, distinct elements of the original contents disjoint from those handed out; follow-up battery vs. model; final drop destroys nothing twice.", "§4 C10"),
 }
@@ -32,7 +42,7 @@ NOT_APPLICABLE = {
  "C15": "compile-time contracts (variance, borrows, const-ness, auto traits): decided by the type checker on witness programs, there is no execution/state/history to enumerate, so model checking does not apply (DESIGN §5).",
 }
 # properties whose checks are still being built (kept here so the manifest is valid at every commit)
-PENDING = {'C04': 'check under construction in this round (garbage-planting non-interference space)', 'C07': 'check under construction (view agreement predicate)', 'C08': 'check under construction (iterator script enumeration)', 'C09': 'check under construction (drain script enumeration)', 'C12': 'check under construction (constructors/conversions)', 'C13': 'check under construction (pairwise comparison space)', 'C14': 'check under construction (byte I/O fixpoint)', 'C16': 'check under construction (embedded-io differential)', 'C18': 'check under construction (unstable-feature differential)', 'C19': 'check under construction (ZST / huge capacities)'}
+PENDING = {'C13': 'check under construction (pairwise comparison space)', 'C14': 'check under construction (byte I/O fixpoint)', 'C16': 'check under construction (embedded-io differential)', 'C18': 'check under construction (unstable-feature differential)', 'C19': 'check under construction (ZST / huge capacities)'}
 
 def main():
     checks = []
